@@ -204,6 +204,34 @@ def full_trees(cs, leaves, depth, fill=None):
 # }}}
 
 
+# {{{ twins that defeat a memo keyed by hash alone / by == alone
+
+HASH_TWINS = [(C(-1), C(-2)), (C(0), C(2 ** 61 - 1))]        # hash(a) == hash(b), a != b
+TYPED_TWINS = [(C(1), C(1.0)), (C(1), C(True)), (C(2), C(2.0)), (C(0), C(False))]   # a == b
+
+
+def twin_trees(pairs=None, var=None, var2=None):
+    """Trees in which two sibling subtrees differ only in one constant of a twin pair (and, if
+    *var2* is given, in their variable: then only the bare constants are twins)."""
+    var = var or V("x")
+    var2 = var2 or var
+    for a, b in (pairs or HASH_TWINS):
+        ka = [("Sum", T(var, a)), ("Product", T(a, var)), ("Power", var, a), a]
+        kb = [("Sum", T(var2, b)), ("Product", T(b, var2)), ("Power", var2, b), b]
+        for sa, sb in zip(ka, kb):
+            yield T(sa, sb)
+            yield T(sb, sa)
+            yield ("Sum", T(sa, sb))
+            yield ("Product", T(sb, sa))
+            la, lb = (C(3), C(3)) if var2 == var else (var, var2)
+            yield ("Sum", T(("Product", T(la, sa)), ("Product", T(lb, sb))))
+            yield ("CommonSubexpression", ("Sum", T(
+                ("CommonSubexpression", sa, NONE, SCOPE_EVAL),
+                ("CommonSubexpression", sb, NONE, SCOPE_EVAL))), NONE, SCOPE_EVAL)
+
+# }}}
+
+
 # {{{ environments
 
 def boxes(names, domain):
